@@ -130,6 +130,15 @@ static std::string record(const std::string& op, const Position& pos, const std:
     } else {
         os << "/out-of-range";
     }
+    // assignment between positions that are equal under the rules but differ in their counters must copy everything
+    {
+        Position twin(pos);
+        twin.setHalfMoveClock(pos.getHalfMoveClock() ^ 5);
+        twin.setFullMoveCounter(pos.getFullMoveCounter() + 3);
+        twin = pos;
+        std::string d4 = diffFields(twin, pos);
+        os << (d4.empty() ? " asg=ok" : " asg=MISMATCH:" + d4);
+    }
     // the light-weight make/unmake pair used by the static exchange evaluation must restore the position for every legal move
     {
         Position work(pos);
